@@ -96,7 +96,7 @@ def gen_cases(tier, seed):
             if 'omitsize' not in kw and rng.random() < 0.2:
                 kw['unit'] = rng.choice(['mm', 'cm', 'px'])
             if rng.random() < 0.25:
-                kw['title'] = rng.choice(['QR code', 'a <b> & c', 'Tïtle ☃', 'x > y', 'Café Müller', 'ñandú'])
+                kw['title'] = rng.choice(['@title', 'QR code', 'a <b> & c', 'Tïtle ☃', 'x > y', 'Café Müller', 'ñandú'])
             if rng.random() < 0.2:
                 kw['desc'] = rng.choice(['desc', 'x & y < z'])
             if rng.random() < 0.2:
@@ -155,7 +155,8 @@ def gen_cases(tier, seed):
         if rng.random() < 0.15 and not mk.get('micro') and not str(mk.get('version', '')).upper().startswith('M'):
             mk['mode'] = rng.choice(['byte', 'BYTE', 'Byte'])
         elif rng.random() < 0.1 and content.isdigit():
-            mk['mode'] = rng.choice(['numeric', 'NUMERIC', 'Numeric', 'alphanumeric', 'ALPHANUMERIC'])
+            # (M1 is numeric only: alphanumeric there is an excluded combination, not a route question)
+            mk['mode'] = rng.choice(['numeric', 'NUMERIC', 'Numeric'] + ([] if str(mk.get('version', '')).upper() == 'M1' else ['alphanumeric', 'ALPHANUMERIC']))
         if rng.random() < 0.15:
             mk['encoding'] = rng.choice(['utf-8', 'latin1'])
         split = False
@@ -164,7 +165,10 @@ def gen_cases(tier, seed):
             if r < 0.15:
                 # white space at the end of the content is content (the command line hands it over untouched)
                 content += rng.choice(['\n', '\r\n', '\r', ' ', '\t', '\n\n', ' \n'])
-            elif r < 0.3 and ' ' in content.strip() and '  ' not in content and not any(w.startswith('-') for w in content.split(' ')):
+            elif r < 0.22:
+                # content that starts like something a command line parser might want to interpret
+                content = rng.choice(['@', '@segno', '@/etc/hostname ', '%', '~', '$HOME ', '*', '\\']) + content
+            elif r < 0.37 and ' ' in content.strip() and '  ' not in content and not any(w.startswith('-') for w in content.split(' ')):
                 split = True      # several content arguments are joined with one blank
         cases.append({'kind': 'routes', 'out': kind, 'content': content, 'make': mk, 'kw': kw, 'split_args': split,
                       'subprocess': rng.random() < (0.12 if tier == 'quick' else 0.05)})
@@ -178,11 +182,12 @@ def gen_cases(tier, seed):
         for compact in (True, False):
             cases.append({'kind': 'terminal', 'content': gen.content_for_bits('alphanumeric', n_), 'border': rng.choice([None, 1]),
                           'compact': compact, 'micro': False, 'subprocess': True})
-    names = ['seq.png', 'out.svg', 'a.b.c.txt', 'UPPER.PNG', 's{0}q.png', 'brace{x}.svg', 'ünï.txt', 'sp ace.pbm', 'x.Svg', '{}.eps',
+    names = ['.svg', '..txt', '.hidden.png', 'seq.png', 'out.svg', 'a.b.c.txt', 'UPPER.PNG', 's{0}q.png', 'brace{x}.svg', 'ünï.txt', 'sp ace.pbm', 'x.Svg', '{}.eps',
              'percent%s.xbm', 'trail.dot.pdf']
-    for i in range(36 if tier == 'quick' else 400):
+    for i in range(45 if tier == 'quick' else 450):
         cases.append({'kind': 'sequence', 'name': names[i % len(names)], 'count': rng.randint(2, 5),
-                      'content': gen.content_for_bits('byte', rng.randint(20, 60)), 'kw': {'scale': rng.choice([1, 2])} if i % 2 else {}})
+                      'content': gen.content_for_bits('byte', rng.randint(20, 60)),
+                      'kw': {'scale': rng.choice([1, 2])} if (i % 2 and not names[i % len(names)].lower().endswith('.txt')) else {}})
     for ext in ('bmp', 'jpg', 'gif', 'svgx', '', 'png2', 'tiff'):
         cases.append({'kind': 'unknown-ext', 'ext': ext})
     rng.shuffle(cases)
